@@ -107,14 +107,18 @@ def findings():
     def p_arn():
         g = np.random.default_rng(0)
         B = g.standard_normal((4, 4))
-        w, V = eig(ops.Dense(B), 4, 'LM', Arnoldi(max_iters=7))
-        V = np.asarray(V.to_dense())
-        r = float(np.abs(B @ V - V * np.asarray(w)[None, :]).max())
         ev = np.linalg.eigvals(B)
-        off = max(np.abs(ev - x).min() for x in np.asarray(w))
-        return (r > 1e-6 or off > 1e-6), f"residual {r:.3g}, distance of the returned values from the spectrum {off:.3g}"
+        worst, msg = 0.0, []
+        for which in ("LM", "SM"):     # padded (spurious zero) Ritz values sort to the small-magnitude end
+            w, V = eig(ops.Dense(B), 4, which, Arnoldi(max_iters=7))
+            V = np.asarray(V.to_dense())
+            r = float(np.abs(B @ V - V * np.asarray(w)[None, :]).max())
+            off = float(max(np.abs(ev - x).min() for x in np.asarray(w)))
+            worst = max(worst, r, off)
+            msg.append(f"{which}: residual {r:.3g}, distance of the returned values from the spectrum {off:.3g}")
+        return worst > 1e-6, "; ".join(msg)
     probe("arnoldi_padding", "eig with Arnoldi(max_iters >= n) (1000 by default): the factorisation is padded / its last column is garbage, the returned pairs are not eigenpairs (C15)",
-          p_arn, "eig(Dense(randn(4,4)),4,'LM',Arnoldi(max_iters=7))")
+          p_arn, "eig(Dense(randn(4,4)),4,'LM'|'SM',Arnoldi(max_iters=7))")
     return out
 
 
@@ -503,13 +507,19 @@ def run(ctx):
         if bad:
             oracle_viol.append(len(meta))
         # Coq term (the model runs at the probed flag vector: repaired rules sort by magnitude)
-        bymag = "false" if "eig_diag_sorted_by_value" in present else "true"
+        def natl(ix):
+            return "(Some [" + ";".join(f"{int(x)}%nat" for x in ix) + "])"
+        if "eig_diag_sorted_by_value" in present or c["kind"] == "ident":
+            bymag = "None"
+        else:
+            dgl = np.diag(np.asarray(struct_op(c).to_dense())) if c["kind"] == "tri" else np.asarray(struct_op(c).diag)
+            bymag = natl(np.argsort(np.abs(dgl)))
         if c["kind"] == "ident":
             rule = "RIdent"
         elif c["kind"] == "diag":
             rule = f"(RDiag {bymag} [" + ";".join(L.qic_exact(v[0], v[1]) for v in c["d"]) + "])"
         else:
-            lowrule = "true" if (c["lower"] and "eig_triangular_lower_upper_swapped" not in present) else "false"
+            lowrule = "true" if (c["lower"] and "eig_triangular_lower_upper_swapped" not in present and np.any(np.tril(D, -1))) else "false"
             rule = f"(RTri {bymag} {lowrule} [" + ";".join("[" + ";".join(L.qic_exact(v[0], v[1]) for v in r) + "]" for r in c["A"]) + "] " + \
                    ("true" if not cplx_of(c["dt"]) or "eig_triangular_complex_drops_imag" in present else "false") + ")"
         scale = max(1.0, float(np.abs(obs["V"]).max(initial=0)), float(np.abs(D).max(initial=0)))
@@ -604,9 +614,7 @@ def run(ctx):
         # different BLAS call: values must still agree to the last bit of the oracle up to 1e-12 (float64) / 1e-5 (float32)
         ctol = 0 if eff in ("Eigh", "Eig") else ((1e-5 if f32 else 1e-12) * max(1.0, float(np.abs(oV).max(initial=0)), float(np.abs(ow).max(initial=0)))) ** 2
         srt = {"Eigh": "eigh_algebraic_not_magnitude", "Lanczos": "eigh_algebraic_not_magnitude", "Eig": "eig_dense_unsorted", "Arnoldi": "eig_dense_unsorted"}.get(eff)
-        srt = "true" if (srt is not None and srt not in present) else "false"
-        if srt == "true":
-            ctol = max(ctol, 0 if eff in ("Eigh", "Eig") else ctol)
+        srt = ("(Some [" + ";".join(f"{int(x)}%nat" for x in np.argsort(np.abs(ow))) + "])") if (srt is not None and srt not in present) else "None"
         terms.append(f"mkecase {n} (ROracle {srt} {ow.shape[0]} {L.qvec(ow)} {L.qmat(oV)}) ({k}) {which} {L.qc_lit(ctol)} true {L.qvec(w)} {L.qmat(V)}")
         if alg is None or alg["cls"] == "Auto":
             aterms.append(f"mkacase {'true' if c['sa'] else 'false'} true ({k}) {which} A{eff}")
@@ -635,7 +643,7 @@ def run(ctx):
             okb, wv, Vv = "true", L.qvec(w), L.qmat(np.asarray(V).reshape(3, -1)) if np.asarray(V).size else "[[];[];[]]"
         except ValueError:
             okb, wv, Vv = "false", "[]", "[]"
-        bm = "false" if "eig_diag_sorted_by_value" in present else "true"
+        bm = "None" if "eig_diag_sorted_by_value" in present else "(Some [" + ";".join(f"{int(x)}%nat" for x in np.argsort(np.abs(np.array(d, dtype=np.float64)))) + "])"
         terms.append(f"mkecase 3 (RDiag {bm} [{';'.join(L.qic_exact(x) for x in d)}]) ({kk}) {which} {L.qc_lit(0)} {okb} {wv} {Vv}")
         meta.append(dict(case=dict(kind="edge", d=d, k=kk, which=which), bad=[], got={}))
 
